@@ -9,6 +9,7 @@ import (
 	"errors"
 	"fmt"
 	"os"
+	"reflect"
 	"strconv"
 	"syscall"
 
@@ -48,6 +49,8 @@ type Case struct {
 	// kind "conc" (conc.go): threads of ring operations on universe nodes, a schedule of thread ids
 	Threads [][][]any `json:"threads"`
 	Sched   []any     `json:"sched"` // a thread id, or ["g", probe, thread]: a lookup overlapping the thread's step
+	// kind "hashfn" (repr.go): hex-encoded byte strings
+	Data []string `json:"data"`
 }
 
 type Out struct {
@@ -67,6 +70,8 @@ type Out struct {
 	Gobs [][]int `json:"gobs,omitempty"`
 	// free: per goroutine, per call: [invocation tick, response tick, answer (Get)]
 	Events [][][]int `json:"events,omitempty"`
+	// repr / hashfn (repr.go): per value / input a row of texts
+	Rx [][]string `json:"rx,omitempty"`
 }
 
 type strg struct{ s string }
@@ -155,9 +160,11 @@ func mk(v Val) any {
 	}
 }
 
+// identity of a universe value: pointers by address (two pointers whose String() / target are equal
+// are different values with the same repr), everything else by type and printed value
 func tag(x any) string {
-	if p, ok := x.(*pstrg); ok {
-		return "pstringer:" + p.s
+	if x != nil && reflect.ValueOf(x).Kind() == reflect.Ptr {
+		return fmt.Sprintf("%T@%p", x, x)
 	}
 	return fmt.Sprintf("%T:%v", x, x)
 }
@@ -178,15 +185,22 @@ func runCase(c Case) (out Out) {
 		m := c.Mod
 		fn = func(data []byte) uint64 { return hash.Hash(data) % m }
 	}
+	if c.Hash == "edge" {
+		// m values spread over the whole uint64 range, 0 and (when m-1 divides 2^64-1) MaxUint64 included:
+		// hashes above 2^63, a key hashing exactly onto a virtual node, below the least, above the greatest
+		m := c.Mod
+		step := ^uint64(0) / (m - 1)
+		fn = func(data []byte) uint64 { return (hash.Hash(data) % m) * step }
+	}
 	var h *hash.ConsistentHash
 	if c.R == 0 {
 		h = hash.NewConsistentHash()
-		if c.Hash == "small" {
+		if c.Hash != "murmur" {
 			h = hash.NewCustomConsistentHash(0, fn)
 		}
 		out.R = minReplicas
 	} else {
-		if c.Hash != "small" && c.R%20 == 0 {
+		if c.Hash == "murmur" && c.R%20 == 0 {
 			h = hash.NewCustomConsistentHash(c.R, nil) // a nil Func means hash.Hash
 		} else {
 			h = hash.NewCustomConsistentHash(c.R, fn)
@@ -368,7 +382,11 @@ func main() {
 	defer w.Close()
 	initWheel()
 	for _, c := range cases {
-		if c.Kind == "free" {
+		if c.Kind == "repr" {
+			w.Put(runRepr(c))
+		} else if c.Kind == "hashfn" {
+			w.Put(runHashFn(c))
+		} else if c.Kind == "free" {
 			w.Put(runFree(c))
 		} else if c.Kind == "conc" {
 			w.Put(runConc(c))
